@@ -38,6 +38,13 @@ Proof.
   destruct (is_empty c); [discriminate|]. apply IH, wf_extend, W'.
 Qed.
 
+Lemma read_bytes_open_total : forall sock s, wf s -> read_bytes_open s sock <> OStructError.
+Proof.
+  induction sock as [|c cs IH]; intros [buf ms] W; destruct (ffb_total buf ms W) as (r & b' & ms' & F & W');
+    cbn [read_bytes_open buffer msize]; rewrite F; destruct r; try discriminate.
+  destruct (is_empty c); apply IH; [exact W' | apply wf_extend, W'].
+Qed.
+
 Lemma read_bytes_one_chunk b r :
   sized b -> read_bytes ipc_init [encode_frame b ++ r] = Read b (mk_ipc r None) [].
 Proof.
@@ -53,9 +60,10 @@ Section ServeProofs.
 Variables cmd astate : Type.
 Variable run : cmd -> astate -> astate * bool.
 Variable decode : bytes -> payload cmd.
+Variable talks : cmd -> astate -> bool.
 
-Notation serve_conn := (serve_conn cmd astate run decode).
-Notation serve := (serve cmd astate run decode).
+Notation serve_conn := (serve_conn cmd astate run decode talks).
+Notation serve := (serve cmd astate run decode talks).
 Notation classify := (classify cmd decode).
 Notation same_daemon := (same_daemon astate).
 
@@ -85,9 +93,12 @@ Definition outcome (sh : shape) (d : daemon astate) (c : conn) : daemon astate *
       | Read b i1 _ =>
           let d1 := mk_daemon i1 (app d) (status_file d) Serving in
           match classify b with
-          | Got (PCmd k) => let '(a', raised) := run k (app d) in
-                            let d' := mk_daemon i1 a' (status_file d) Serving in
-                            if raised then crash cmd astate d' c false else (d', if stays c then Done k else NoReply)
+          | Got (PCmd k) =>
+              if talks k (app d) && negb (stays c) && negb (stdout_guarded sh)
+              then crash cmd astate d1 c false
+              else let '(a', raised) := run k (app d) in
+                   let d' := mk_daemon i1 a' (status_file d) Serving in
+                   if raised then crash cmd astate d' c false else (d', if stays c then Done k else NoReply)
           | Got PStop => (mk_daemon i1 (app d) false Exited, if stays c then Stopped else NoReply)
           | Got PNoCommand => (d1, if stays c then ErrNoCommand else NoReply)
           | Got PCommandNotStr => (d1, if stays c then ErrNotStr else NoReply)
@@ -114,28 +125,32 @@ Qed.
 (* ---------------------------------------------------------------- survival *)
 Lemma survives_step sh d c :
   serve_repaired sh = true -> no_internal_crash cmd astate run ->
+  output_tolerated cmd astate talks sh ->
   is_stop_request cmd decode c = false ->
   ph d = Serving /\ status_file d = true ->
   ph (fst (serve_conn sh d c)) = Serving /\ status_file (fst (serve_conn sh d c)) = true.
 Proof.
-  intros R NC NS [P S]. rewrite (serve_conn_repaired sh d c R). unfold outcome. rewrite P.
+  intros R NC OT NS [P S]. rewrite (serve_conn_repaired sh d c R). unfold outcome. rewrite P.
   unfold is_stop_request, conn_request in NS.
   destruct (read_bytes ipc_init (feed (sent c))) as [|b i1 rest]; [auto|].
   destruct (classify b) as [| | |p]; cbn [fst ph status_file]; auto.
   destruct p; cbn [fst ph status_file]; auto; [|discriminate].
+  assert (Q : talks c0 (app d) && negb (stays c) && negb (stdout_guarded sh) = false).
+  { destruct OT as [G|Qt]; [rewrite G; cbn [negb]; apply andb_false_r | rewrite Qt; reflexivity]. }
+  rewrite Q.
   pose proof (NC c0 (app d)) as H. destruct (run c0 (app d)) as [a' raised]. simpl in H. subst raised.
   cbn [fst ph status_file]. auto.
 Qed.
 
-Lemma daemon_survives_repaired sh : serve_repaired sh = true -> daemon_survives cmd astate run decode sh.
+Lemma daemon_survives_repaired sh : serve_repaired sh = true -> daemon_survives cmd astate run decode talks sh.
 Proof.
-  intros R NC a conns. unfold start.
+  intros R NC OT a conns. unfold start.
   assert (G : forall conns d, (forall c, In c conns -> is_stop_request cmd decode c = false) ->
               ph d = Serving /\ status_file d = true ->
               ph (fst (serve sh d conns)) = Serving /\ status_file (fst (serve sh d conns)) = true).
   { induction conns0 as [|c cs IH]; intros d NS I0; [exact I0|].
     cbn [Serve.serve].
-    pose proof (survives_step sh d c R NC (NS c (or_introl eq_refl)) I0) as I1.
+    pose proof (survives_step sh d c R NC OT (NS c (or_introl eq_refl)) I0) as I1.
     destruct (serve_conn sh d c) as [d1 r]. cbn [fst] in I1.
     specialize (IH d1 (fun c' H => NS c' (or_intror H)) I1).
     destruct (serve sh d1 cs) as [d2 rs]. exact IH. }
@@ -164,7 +179,7 @@ Proof.
 Qed.
 
 Lemma failed_request_preserves_state_repaired sh :
-  serve_repaired sh = true -> failed_request_preserves_state cmd astate run decode sh.
+  serve_repaired sh = true -> failed_request_preserves_state cmd astate run decode talks sh.
 Proof. intros R d c F. rewrite (serve_conn_repaired sh d c R). apply fault_outcome, F. Qed.
 
 Lemma serve_same sh : serve_repaired sh = true -> forall cs d d',
@@ -181,7 +196,7 @@ Proof.
 Qed.
 
 Lemma later_requests_unaffected_repaired sh :
-  serve_repaired sh = true -> later_requests_unaffected cmd astate run decode sh.
+  serve_repaired sh = true -> later_requests_unaffected cmd astate run decode talks sh.
 Proof.
   intros R d f later F. cbv zeta. apply (serve_same sh R).
   apply (failed_request_preserves_state_repaired sh R d f F).
@@ -197,11 +212,12 @@ Proof.
   destruct (read_bytes ipc_init (feed (sent c))) as [|b i1 rest]; cbn [fst]; [rewrite P; discriminate|].
   destruct (classify b) as [| | |p]; cbn [fst ph status_file]; try discriminate.
   destruct p; cbn [fst ph status_file]; try discriminate; auto.
+  destruct (talks c0 (app d) && negb (stays c) && negb (stdout_guarded sh)); [cbn [fst ph status_file crash]; auto|].
   destruct (run c0 (app d)) as [a' raised]. destruct raised; cbn [fst ph status_file crash]; [auto | discriminate].
 Qed.
 
 Lemma status_file_removed_repaired sh :
-  serve_repaired sh = true -> status_file_removed_on_exit cmd astate run decode sh.
+  serve_repaired sh = true -> status_file_removed_on_exit cmd astate run decode talks sh.
 Proof.
   intros R a conns. cbv zeta.
   assert (G : forall conns d, (ph d = Exited -> status_file d = false) ->
@@ -217,7 +233,7 @@ Qed.
 Definition connect_and_close : conn := mk_conn [] false.
 
 Lemma daemon_survives_refuted_unguarded sh :
-  recv_catch_os sh = false -> daemon_survives_refuted cmd astate run decode sh.
+  recv_catch_os sh = false -> daemon_survives_refuted cmd astate run decode talks sh.
 Proof.
   intros U. exists [connect_and_close]. split.
   - intros c [<-|[]]. reflexivity.
@@ -272,17 +288,142 @@ Proof.
     unfold dispatch, respond. cbn [stays]. reflexivity.
 Qed.
 
+(* ---------------------------------------------------------------- stalled clients, idle exit, output to a gone client *)
+Notation step := (step cmd astate run decode talks).
+Notation steps := (steps cmd astate run decode talks).
+
+Lemma blocked_absorbing sh idle : forall evs e, blocked e = true ->
+  steps sh idle e evs = (e, repeat NoReply (length evs)).
+Proof.
+  induction evs as [|ev evs IH]; intros e B; cbn [Serve.steps]; [reflexivity|].
+  unfold Serve.step at 1. rewrite B. rewrite (IH e B). reflexivity.
+Qed.
+
+Lemma stalled_blocks sh : conn_timeout sh = false -> stalled_client_blocks_refuted cmd astate run decode talks sh.
+Proof.
+  intros U idle a later.
+  assert (E : steps sh idle (estart astate a) (Stalled [] :: later)
+              = (mk_e (mk_daemon (mk_ipc [] None) a true Serving) true, repeat NoReply (S (length later)))).
+  { cbn [Serve.steps]. unfold Serve.step at 1, estart, start. cbn [blocked core ph ipc app status_file].
+    assert (RB : read_bytes_open ipc_init (feed []) = OWaiting (mk_ipc [] None)) by reflexivity.
+    assert (I0 : (if reset_on_accept sh then ipc_init else ipc_init) = ipc_init) by (destruct (reset_on_accept sh); reflexivity).
+    rewrite I0, RB, U. rewrite blocked_absorbing by reflexivity. reflexivity. }
+  cbv zeta. rewrite E. cbn [fst snd blocked core ph]. auto.
+Qed.
+
+Lemma idle_exit sh : idle_exit_removes_status_file cmd astate run decode talks sh.
+Proof.
+  intros e B P. cbv zeta. unfold Serve.step. rewrite B, P. cbn [fst core die ph status_file]. auto.
+Qed.
+
+Lemma events_survive_step sh idle e ev :
+  serve_repaired sh = true -> conn_timeout sh = true ->
+  no_internal_crash cmd astate run -> output_tolerated cmd astate talks sh ->
+  event_is_stop cmd decode ev = false -> event_is_idle ev = false ->
+  blocked e = false /\ ph (core e) = Serving /\ status_file (core e) = true ->
+  let e' := fst (step sh idle e ev) in
+  blocked e' = false /\ ph (core e') = Serving /\ status_file (core e') = true.
+Proof.
+  intros R T NC OT NS NI (B & P & S). cbv zeta.
+  destruct (repaired_flags sh R) as (F1 & F2 & F3 & F4 & F5).
+  unfold Serve.step. rewrite B. destruct ev as [c|chunks|]; [| |discriminate].
+  - pose proof (survives_step sh (core e) c R NC OT NS (conj P S)) as H.
+    destruct (serve_conn sh (core e) c) as [d' r]. cbn [fst core blocked] in *. tauto.
+  - rewrite P, F3. cbn [event_is_stop] in NS.
+    destruct (read_bytes_open ipc_init (feed chunks)) as [|b i1 rest|i1] eqn:RB.
+    + exfalso. exact (read_bytes_open_total _ _ wf_init RB).
+    + pose proof (survives_step sh (core e) (mk_conn chunks true) R NC OT NS (conj P S)) as H.
+      destruct (serve_conn sh (core e) (mk_conn chunks true)) as [d' r]. cbn [fst core blocked] in *. tauto.
+    + rewrite T, F1. cbn [fst core blocked ph status_file]. auto.
+Qed.
+
+Lemma stalled_ok sh : conn_timeout sh = true -> serve_repaired sh = true ->
+  stalled_client_does_not_block_forever cmd astate run decode talks sh.
+Proof.
+  intros T R NC OT idle a evs. unfold estart, start.
+  assert (G : forall evs e, no_stop_no_idle cmd decode evs ->
+              blocked e = false /\ ph (core e) = Serving /\ status_file (core e) = true ->
+              let e' := fst (steps sh idle e evs) in
+              blocked e' = false /\ ph (core e') = Serving /\ status_file (core e') = true).
+  { induction evs0 as [|ev evs0 IH]; intros e NS I0; [exact I0|].
+    cbv zeta. cbn [Serve.steps].
+    destruct (NS ev (or_introl eq_refl)) as [N1 N2].
+    pose proof (events_survive_step sh idle e ev R T NC OT N1 N2 I0) as I1. cbv zeta in I1.
+    destruct (step sh idle e ev) as [e1 r]. cbn [fst] in I1.
+    specialize (IH e1 (fun ev' H => NS ev' (or_intror H)) I1). cbv zeta in IH.
+    destruct (steps sh idle e1 evs0) as [e2 rs]. exact IH. }
+  intros NS. apply G; [exact NS | repeat split].
+Qed.
+
+Lemma status_event_step sh idle e ev : serve_repaired sh = true ->
+  (ph (core e) = Exited -> status_file (core e) = false) ->
+  let e' := fst (step sh idle e ev) in ph (core e') = Exited -> status_file (core e') = false.
+Proof.
+  intros R J. cbv zeta. destruct (repaired_flags sh R) as (F1 & F2 & F3 & F4 & F5).
+  unfold Serve.step. destruct (blocked e); [exact J|].
+  destruct ev as [c|chunks|].
+  - pose proof (status_step sh (core e) c R J) as H.
+    destruct (serve_conn sh (core e) c) as [d' r]. exact H.
+  - destruct (ph (core e)) eqn:P; [|cbn [fst]; intros _; apply J; reflexivity]. rewrite F3.
+    destruct (read_bytes_open ipc_init (feed chunks)) as [|b i1 rest|i1].
+    + cbn [fst core die status_file]. auto.
+    + assert (J' : ph (core e) = Exited -> status_file (core e) = false) by (rewrite P; discriminate).
+      pose proof (status_step sh (core e) (mk_conn chunks true) R J') as H.
+      destruct (serve_conn sh (core e) (mk_conn chunks true)) as [d' r]. exact H.
+    + rewrite F1. destruct (conn_timeout sh); cbn [fst core ph]; discriminate.
+  - destruct (ph (core e)) eqn:P; [|cbn [fst]; intros _; apply J; reflexivity].
+    destruct idle; [cbn [fst core die status_file]; auto | cbn [fst]; rewrite P; discriminate].
+Qed.
+
+Lemma status_events_repaired sh : serve_repaired sh = true ->
+  status_file_removed_on_exit_events cmd astate run decode talks sh.
+Proof.
+  intros R idle a evs. cbv zeta.
+  assert (G : forall evs e, (ph (core e) = Exited -> status_file (core e) = false) ->
+              ph (core (fst (steps sh idle e evs))) = Exited -> status_file (core (fst (steps sh idle e evs))) = false).
+  { induction evs0 as [|ev evs0 IH]; intros e J; [exact J|].
+    cbn [Serve.steps]. pose proof (status_event_step sh idle e ev R J) as J1. cbv zeta in J1.
+    destruct (step sh idle e ev) as [e1 r]. cbn [fst] in J1.
+    specialize (IH e1 J1). destruct (steps sh idle e1 evs0) as [e2 rs]. exact IH. }
+  apply G. unfold estart, start. cbn [core ph]. discriminate.
+Qed.
+
+Lemma hangup_during_output sh : stdout_guarded sh = false ->
+  hangup_during_output_refuted cmd astate run decode talks sh.
+Proof.
+  intros U b k a NE S D T. cbv zeta. cbn [Serve.serve]. unfold Serve.serve_conn, start. cbn [ph ipc].
+  assert (RB : read_bytes ipc_init (feed (sent (mk_conn [encode_frame b] false))) = Read b (mk_ipc [] None) []).
+  { cbn [sent feed filter]. assert (N : negb (is_empty (encode_frame b)) = true) by (unfold encode_frame, pack_be32; reflexivity).
+    rewrite N. rewrite <- (app_nil_r (encode_frame b)). apply read_bytes_one_chunk, S. }
+  assert (C : classify b = Got (PCmd k)).
+  { unfold Serve.classify. rewrite (is_empty_false b NE), D. reflexivity. }
+  destruct (reset_on_accept sh); rewrite RB, C; unfold dispatch; cbn [app stays]; rewrite T, U; reflexivity.
+Qed.
+
 End ServeProofs.
 
 (* ---------------------------------------------------------------- verdict for any source shape *)
 Lemma serve_verdict_all : forall sh, serve_verdict sh.
 Proof.
   intros sh. unfold serve_verdict. destruct (serve_repaired sh) eqn:R.
-  - intros cmd astate run decode. split; [|split; [|split]].
+  - intros cmd astate run decode talks. split; [|split; [|split]].
     + apply daemon_survives_repaired, R.
     + apply failed_request_preserves_state_repaired, R.
     + apply later_requests_unaffected_repaired, R.
     + apply status_file_removed_repaired, R.
   - destruct (recv_catch_os sh) eqn:U; [exact I|]. cbn [negb].
-    intros cmd astate run decode. apply daemon_survives_refuted_unguarded, U.
+    intros cmd astate run decode talks. apply daemon_survives_refuted_unguarded, U.
+Qed.
+
+Lemma stall_verdict_all : forall sh, stall_verdict sh.
+Proof.
+  intros sh cmd astate run decode talks. destruct (conn_timeout sh) eqn:T.
+  - intros R. apply stalled_ok; assumption.
+  - apply stalled_blocks, T.
+Qed.
+
+Lemma output_verdict_all : forall sh, output_verdict sh.
+Proof.
+  intros sh cmd astate run decode talks. destruct (stdout_guarded sh) eqn:G; [exact I|].
+  apply hangup_during_output, G.
 Qed.
